@@ -17,6 +17,21 @@ CHECKS = {
               "read back after every step."),
         technique="TLC-enumerated histories of the TLA+ engine machine replayed step by step on the real engine",
         ref="5/C07"),
+    "C05": dict(
+        text=("TLC enumerates all clause bodies up to 5 (thorough: 6) nodes over {leaf, true, fail, !, ',', ';', '->', '\\+'} with cuts in transparent "
+              "positions x leaf solution counts 0..2 x one- and two-clause predicates followed by a marker clause, checks on spec/Codegen.tla that the model "
+              "of the emitted control flow refines the denotational semantics spec/Control.tla, runs every instance through the machine spec/YP.tla "
+              "(invariant AnswersAreSLD: machine = denotational semantics, in every state the cut-barrier invariants) and replays every behaviour on the "
+              "real compiler+engine, in two renderings, comparing every answer tuple (each leaf binds its own variable, so an answer spells the path) - "
+              "also from a caller with alternatives before and after the call."),
+        technique="TLC-enumerated body trees; two TLA+ formulations cross-checked; behaviours replayed on compiler+engine",
+        ref="5/C05"),
+    "C06": dict(
+        text=("Same pipeline as C05 over every body containing ';', '->' or '\\+' (nesting to 5/6 nodes, constructs in every position of a conjunction, "
+              "with cuts in branches); the fully parenthesised and the minimally parenthesised rendering of the same tree must both give the answers "
+              "the specification predicts, which binds the grammar's precedence and associativity; negation is checked to bind nothing through the answer tuples."),
+        technique="TLC-enumerated body trees; two TLA+ formulations cross-checked; behaviours replayed on compiler+engine",
+        ref="5/C06"),
 }
 
 PENDING = {}
